@@ -472,6 +472,33 @@ def rule_c_d(repo, chk):
         newp = [n for n in gc.nodes if n.kind == 'stmt' and 'self' in pat.stores_attr(n.ast, '_parser') and 'HttpParser(' in src(n.ast.value)]
         p_ = Q.escapes(gc, [r], lambda n: n in newp)
         chk.ob('c', c.ref, 'after a response the client starts a fresh parser', p_ is None and bool(newp), loc(c, r.ast), discr='parser-replaced')
+    # a response whose body is delimited by the end of the connection is completed by that end; and no parser state outlives its connection
+    pcls = repo.cls(PROTO_HTTP, 'HTTP')
+    dh = [m for m in pcls.methods.values() if m.handler is not None and 'disconnected' in m.handler.names and not getattr(m, 'absorbed', False)]
+    chk.ob('c', c.ref, 'the HTTP client handles the end of its connection', bool(dh), loc(c, c.node), discr='client-handles-disconnected')
+    for m in dh:
+        chk.touch(m)
+        gm = m.cfg()
+        fresh = [n for n in gm.nodes if n.kind == 'stmt' and 'self' in pat.stores_attr(n.ast, '_parser') and 'HttpParser(' in src(n.ast.value)]
+        p_ = Q.escapes(gm, [gm.entry], lambda n: n in fresh, exc=())
+        chk.ob('c', m.ref, 'when the connection ends the client starts a fresh parser on every path (a half-parsed response must not swallow the next connection\'s)',
+               p_ is None and bool(fresh), loc(m, m.node), path=pat.path_lines(p_) if p_ else None, discr='client-parser-reset-on-disconnect')
+        fires_ = [n for n in gm.nodes if n.kind == 'stmt' and pat.fires(n.ast, 'response')]
+        okf = bool(fires_)
+        for n in fires_:
+            for need_ in ('.is_headers_complete()',):
+                if pat.guarded_by(gm, n, pat.test_edge(lambda tt, pol: pol == 'T' and src(tt).endswith(need_))) is not None:
+                    okf = False
+            # not for a message that is complete already (it was delivered by the read handler) nor for one whose length was announced (it is truncated)
+            if pat.guarded_by(gm, n, pat.test_edge(lambda tt, pol: pol == 'F' and src(tt).endswith('.is_message_complete()'))) is not None:
+                okf = False
+            if pat.guarded_by(gm, n, pat.test_edge(lambda tt, pol: pol == 'F' and src(tt).endswith('.is_chunked()'))) is not None:
+                okf = False
+            if pat.guarded_by(gm, n, pat.test_edge(lambda tt, pol: (lambda fc: fc is not None and fc[0].endswith('._clen') and fc[1] in ('is', '==') and fc[2] == 'None')(
+                    pat.compare_fact(tt, pol)))) is not None:
+                okf = False
+        chk.ob('c', m.ref, 'the end of the connection completes exactly a response whose headers are complete and whose body is delimited by closing (no length, not chunked, '
+                           'not delivered yet)', okf, loc(m, m.node), discr='close-delimited-completed')
     q = None
     for n in gc.nodes:
         if n.kind == 'test' and '_clen' in src(n.ast):
